@@ -183,6 +183,7 @@ def gen_rich(rng, P, serial=0):
   doc["lang"] = rng.choice(["en", "fr", "", "en-US"])
   doc["space"] = rng.choice(["", "", "default", "preserve"])
   doc["spell"] = rng.choice([0, 0, 1, 2, 3, 4, 5])        # how named colours are spelled in the XML (see X.render)
+  doc["ignorable"] = (doc["spell"] * 7 + len(doc["lang"])) % 5 if doc["spell"] % 2 else 0   # non-content nodes before text (X.render)
   total = [0]
   tagno = [0]
 
